@@ -311,6 +311,14 @@ func exec(line string) hx.Result {
 		g := build(c.args[0], c.arg(1), edgesOf(c.toks)).(graph.EditableGraph)
 		graph.Contract(g, c.arg(2), c.arg(3))
 		see(g)
+	case "consplit":
+		// Contract then SplitEdge on the same graph: the second call re-slices a DenseGraph's
+		// backing array into the stale tail the RemoveVertex of the first left behind
+		g := build(c.args[0], c.arg(1), edgesOf(c.toks)).(graph.EditableGraph)
+		graph.Contract(g, c.arg(2), c.arg(3))
+		see(g)
+		graph.SplitEdge(g, c.arg(4), c.arg(5))
+		see(g)
 	case "prufer":
 		wfonly = true
 		see(graph.PruferDecode(intsOf(c.toks)))
@@ -356,11 +364,9 @@ func exec(line string) hx.Result {
 		if len(res.Viol) > 0 {
 			verdict = "notwf"
 		}
-		if c.kind == "graph6" || c.kind == "sparse6" {
-			res.Obs = verdict // no model of these decoders here: the oracle alone decides
-		} else {
-			res.Obs = fmt.Sprintf("%s N=%d ## %s", verdict, last.n, strings.Join(strs, " => "))
-		}
+		// graph6/sparse6: the model is C08's decoder completed by NewDense resp. NewSparse+AddEdge
+		// (coq/Graph/CtorDecodeModel.v); like the other decoders: projected = verdict and N
+		res.Obs = fmt.Sprintf("%s N=%d ## %s", verdict, last.n, strings.Join(strs, " => "))
 	} else {
 		res.Obs = strings.Join(strs, " => ")
 	}
@@ -706,6 +712,22 @@ func gen(g *hx.Gen) {
 				emit("contract %s %d %d %d;%s", rep, n, i, j, e)
 				emit("contract %s %d %d %d;%s", rep, n, j, j, e)
 			}
+			// Contract(i, j) then SplitEdge(k, l), k != l among the n-1 remaining vertices
+			if n >= 3 {
+				cnt := 2
+				if all {
+					cnt = n
+				}
+				for t := 0; t < cnt; t++ {
+					i, j := r.Intn(n), r.Intn(n)
+					if all {
+						i = t
+					}
+					k := r.Intn(n - 1)
+					l := (k + 1 + r.Intn(n-2)) % (n - 1)
+					emit("consplit %s %d %d %d %d %d;%s", rep, n, i, j, k, l, e)
+				}
+			}
 		}
 	}
 	tn := g.Pick(4, 5)
@@ -761,6 +783,26 @@ func gen(g *hx.Gen) {
 		d := build("d", n, es)
 		emit("graph6;%s", bytesToks(graph.Graph6Encode(d)))
 		emit("sparse6;%s", bytesToks(graph.Sparse6Encode(d)))
+	}
+	// raw streams (not encoder output): a one-byte size header followed by arbitrary bytes of the
+	// alphabet 63..126.  Every such sparse6 string decodes: its stream holds loops, repeated
+	// edges, pairs naming vertices >= n and padding, all of which AddEdge / the guard must absorb.
+	// graph6 gets the number of bytes it needs, sometimes one fewer (error) or extra ones.
+	emit("sparse6;58 67 111 78 111 78")
+	for k := 0; k < g.Pick(300, 6000); k++ {
+		n := r.Range(0, 14)
+		b := []byte{58, byte(63 + n)}
+		for t := r.Intn(12); t > 0; t-- {
+			b = append(b, byte(r.Range(63, 126)))
+		}
+		emit("sparse6;%s", bytesToks(string(b)))
+		n = r.Range(0, 9)
+		b = []byte{byte(63 + n)}
+		need := (tri(n)+5)/6 + r.Range(-1, 1)
+		for t := 0; t < need; t++ {
+			b = append(b, byte(r.Range(63, 126)))
+		}
+		emit("graph6;%s", bytesToks(string(b)))
 	}
 	_ = big
 }
